@@ -9,7 +9,7 @@ use std::alloc::Allocator;
 /// stubs.  `push_nogrow` asserts that this capacity is never exceeded; the
 /// assertion carries the marker KSTUB-BOUND, which the driver classifies as a
 /// *bound check* (failure => INCONCLUSIVE, never green, never a VIOLATION).
-pub const CAP: usize = 16;
+pub const CAP: usize = 24;
 
 /// replaces `std::vec::Vec::new`: same value, pre-allocated capacity.
 pub fn vec_new_cap<T>() -> Vec<T> {
